@@ -9,7 +9,11 @@
      operator prefixes on every string up to a bound;
    * VersionRange_MC - the interval design obeys the membership laws (intersect iff both, checks ->
      range bracket, always() justified, condition-with-min justified) for all range pairs / check
-     lists over boundary versions; exports the range descriptions.
+     lists over boundary versions; exports the range descriptions;
+   * VersionEntry_MC - constraint lists built one constraint at a time (eight operator spellings x versions below /
+     equal to / above the receiver) against the version of the meson under test: list holds iff each holds, the
+     incremental evaluators agree with the meaning, order / split of the list is irrelevant, operator table,
+     meson.version() proposes a narrowing iff no `!=` was seen; exports the step alphabet.
 2. (A) the exported domain is rendered to several concrete spellings per version and the full pair
    table (six relations + hash) is taken from the real ``mesonlib.Version``; the exported range space
    (all pairs) goes through the real ``Range.__contains__/intersect/always``, all check lists through
@@ -19,6 +23,17 @@
    strings through ``version_compare``/``version_compare_many``/the real interpreter's
    ``str.version_compare()`` (in-process and a ``meson setup`` CLI sample), random ranges and check
    lists, and the ``if meson.version().version_compare()`` narrowing observed from inside the block.
+5. Feature checks (c19_feature.py, VersionFeature.tla): VersionFeature_MC proves the target-range machine (project range,
+   if / elif / else narrowing and restoring, FeatureNew / FeatureDeprecated, always-true/false reports) against the set
+   laws on every program up to a bound; programs over the same space run in the real interpreter (probe functions calling
+   the real FeatureNew / FeatureDeprecated) and, with real features of known versions, through ``meson setup``; every
+   event's observation is judged by folding the machine over the recorded events (TraceVersion, kind "feat").
+4. Entry points (c19_entry.py, VersionEntry.tla): the step alphabet of VersionEntry_MC rendered around each receiver
+   goes through ``'v'.version_compare``, ``meson.version().version_compare`` (real and substituted own version),
+   ``dependency(version:)`` (override and pkg-config), ``dep.version().version_compare``, ``find_program(version:)``,
+   ``subproject(version:)`` (first and repeated use), ``project(meson_version:)`` and ``version_compare_many`` in the
+   in-process interpreter (all lists up to a bound + samples up to length 4, each constraint also asked alone), and
+   through one ``meson setup`` project that adds the C compiler's version.
 """
 from __future__ import annotations
 
@@ -33,6 +48,8 @@ import typing as T
 from concurrent.futures import ProcessPoolExecutor
 
 from . import common
+from . import c19_entry as entry
+from . import c19_feature as feat
 from .common import Check, MachineryError, SPECS, run_tlc, scratch
 
 PROP = 'C19'
@@ -144,6 +161,10 @@ def execute(c: T.Dict[str, T.Any], dom: T.List[str], dv: T.Optional[T.List[T.Any
             c['f'] = [cp(x) for x in f]
         elif k == 'meson':
             c['got'] = interp_version_compare(txt(c['v']), [txt(x) for x in c['cs']])
+        elif k == 'entry':
+            entry.driver().execute(c)
+        elif k == 'feat':
+            feat.feature_driver().run(c, dv)
         elif k == 'in':
             c['m'] = members(mk_range(c['r'], dom), dv)
         elif k == 'isect':
@@ -326,6 +347,29 @@ def describe(c: T.Dict[str, T.Any], dom: T.List[str], v: T.Dict[str, T.Any]) -> 
     elif k in ('vcm', 'meson'):
         info.update(v=txt(c['v']), cs=[txt(x) for x in c['cs']], got=c.get('got', c.get('ok')))
         s = f"{info['v']!r} {info['cs']!r}"
+    elif k == 'feat':
+        def ev_text(e: T.Dict[str, T.Any]) -> str:
+            if e['op'] in ('if', 'elif'):
+                return e['op'] + ' ' + ','.join(txt(x) for x in e['cs'])
+            if e['op'] == 'use':
+                return f"use {e['kind']} {txt(e['f'])}"
+            return str(e['op'])
+        prog = [ev_text(e) for e in c['ev'][:w]]
+        # the context of the failing event: the clauses still open at it
+        stack: T.List[str] = []
+        for t in prog[:-1]:
+            if t.startswith('if '):
+                stack.append(t)
+            elif t.startswith('elif ') or t == 'else':
+                stack[-1] = t
+            elif t == 'end':
+                stack.pop()
+        info.update(own=txt(c['own']), project=txt(c['p']), event=w, program=prog, observed=c['ev'][w - 1] if w else None)
+        s = f"project {txt(c['p'])!r} [{' / '.join(stack)}] {prog[-1] if prog else ''}"
+    elif k == 'entry':
+        info.update(entry=c['e'], receiver=txt(c['v']), cs=[txt(x) for x in c['cs']], got=c.get('got'), each=c.get('each'),
+                    constraint=txt(c['cs'][w - 1]) if w else None)
+        s = f"{c['e']} {info['receiver']!r} {info['cs']!r}"
     elif k == 'in':
         info.update(range=rng(c['r']), version=dom[w - 1] if w else None)
         s = f"{info['range']} ? {info['version']!r}"
@@ -351,7 +395,7 @@ def describe(c: T.Dict[str, T.Any], dom: T.List[str], v: T.Dict[str, T.Any]) -> 
 
 INPUT_KEYS = {'row': ['a'], 'tri': ['s'], 'vc': ['v', 'c'], 'vcm': ['v', 'cs', 'single'], 'meson': ['v', 'cs'], 'in': ['r'],
               'isect': ['a', 'b'], 'always': ['a', 'b'], 'checks': ['cs', 'start'], 'cms': ['c', 'min'], 'cmr': ['r', 'min'],
-              'ifn': ['p', 'groups']}
+              'ifn': ['p', 'groups'], 'entry': ['e', 'v', 'cs', 'pos', 'bare'], 'feat': ['own', 'p', 'ev']}
 
 
 def judge(chk: Check, cases: T.List[T.Dict[str, T.Any]], dom: T.List[str], label: str) -> None:
@@ -381,8 +425,16 @@ def judge(chk: Check, cases: T.List[T.Dict[str, T.Any]], dom: T.List[str], label
                 raise MachineryError('unreadable verdict lines from TraceVersion')
     chk.add_tlc(f'TraceVersion[{label}]', res, model=False)
     chk.traces += len(cases)
+    per_class: T.Dict[T.Tuple[str, str], int] = {}
     for v in bad:
         c = by_id.get(v['id'], {})
+        if c.get('k') in ('entry', 'feat'):       # one broken entry point fails thousands of lists: keep the first 20 per clause
+            key = (str(v.get('clause')), str(c.get('e')))
+            per_class[key] = per_class.get(key, 0) + 1
+            if per_class[key] > 20:
+                continue
+        if str(v.get('clause', '')).startswith('generator-'):
+            raise MachineryError(f"the case generator broke its own contract ({v['clause']}): " + json.dumps(c)[:600])
         sig, info = describe(c, dom, v)
         keep = {k: c[k] for k in ['k'] + INPUT_KEYS.get(c['k'], []) if k in c}
         chk.violation(sig, {'verdict': v, 'inputs': info, 'case': keep, 'observed': {k: c[k] for k in c if k not in keep and k != 'codes'},
@@ -511,6 +563,32 @@ def gen_random(rnd: random.Random, n: int) -> T.Tuple[T.List[str], T.List[T.Dict
     return dom, cases
 
 
+def gen_random_entries(rnd: random.Random, dom: T.List[str], n: int, real: str, stable: str) -> T.List[T.Dict[str, T.Any]]:
+    """(B) free-form questions to the entry points: receivers and constraint versions from the random domain."""
+    cases: T.List[T.Dict[str, T.Any]] = []
+    dotted = ['.'.join(str(rnd.choice([0, 1, 2, 9, 10, 11, 99, 100])) for _ in range(rnd.choice([2, 3, 3, 4]))) for _ in range(12)]
+    for _ in range(n):
+        e = rnd.choice(entry.INPROC)
+        pool = dotted if e == 'prog' else [real] + dom if e == 'meson' else [stable] + dom if e == 'project' else dom
+        for _ in range(50):
+            v = rnd.choice(pool)
+            if entry.receiver_ok(e, v):
+                break
+        else:
+            continue
+        near = entry.symbols(entry.alphabet_around(v, rnd, 2)) if rnd.random() < 0.5 else []
+        lo = 1 if e in ('str', 'meson', 'depver', 'project') else 0
+        ln = 1 if e == 'project' else rnd.choice([lo, 1, 2, 2, 3, 3, 4])
+        lst = []
+        for _ in range(ln):
+            if near and rnd.random() < 0.6:
+                lst.append(rnd.choice(near))
+            else:
+                lst.append((spell_constraint(rnd.choice(OPS_SPELLED), rnd.choice(dom).strip(), rnd), 0))
+        cases.append(entry.make_case(e, v, lst, claim=False, bare=rnd.random() < 0.5))
+    return cases
+
+
 def gen_if_narrowing(rnd: random.Random, n: int, current: str, stable: str) -> T.Tuple[T.List[str], T.List[T.Dict[str, T.Any]]]:
     """Conditions the running meson version satisfies (so that the blocks are entered), around real meson versions."""
     m = re.match(r'(\d+)\.(\d+)\.(\d+)', stable)
@@ -580,6 +658,10 @@ def mc_cfg(invariants: T.List[str], consts: str, post: str = '') -> str:
 ORDER_INV = ['Trichotomy', 'RelationsConsistent', 'Reflexive', 'Transitive', 'EqualIffSameKey', 'OperationalEqualsDeclarative',
              'FirstDifferenceDecides', 'LongerIsGreater', 'RoundTrip']
 TOK_INV = ['ScanEqualsRuns', 'WellFormed', 'SeparatorsDropped', 'SeparatorsRepeat', 'CutsBetweenComponents', 'OperatorPrefix']
+FEATURE_INV = ['TargetBracket', 'TargetIsMay', 'ExactWithoutNe', 'OwnInside', 'LiveIsReachable', 'Restored', 'OuterChain',
+               'UsesJustified', 'ClausesJustified', 'ClausesAnswer']
+ENTRY_INV = ['ReadOnce', 'ListIffEach', 'EmptyListHolds', 'EvaluatorsAgree', 'OrderIrrelevant', 'SplitIrrelevant',
+             'OperatorsAgreeWithOrder', 'SpellingRead', 'Partition', 'MesonEntry', 'Arity']
 RANGE_INV = ['IntersectSoundComplete', 'IntersectCommutes', 'EmptinessSound', 'AlwaysJustified', 'AlwaysAnswers', 'ChecksSound',
              'ChecksExact', 'CondMinJustified', 'PinnedTableAgrees']
 
@@ -592,7 +674,12 @@ def main(chk: Check) -> None:
                 'range space, every check list up to 2 over the boundary versions. B: seeded random versions with 0-6 '
                 'components (numbers up to 15 digits, leading zeros, glued digit/letter runs, odd separators). Non-trivial = '
                 'distinct compared pairs whose versions differ in spelling but not necessarily in order, plus distinct '
-                'range/check/constraint cases whose result is neither the full nor the empty domain.')
+                'range/check/constraint cases whose result is neither the full nor the empty domain. Entry points: the step '
+                'alphabet of VersionEntry_MC (8 operator spellings x versions below / equal to / above the receiver, rendered '
+                'around every receiver) as lists of length 0..4 through 11 in-process entry points and one configured project; '
+                'non-trivial = distinct (entry point, receiver, list) with at least two constraints. Feature checks: programs of '
+                'nested if / elif / else (depth <= 3) over the space of VersionFeature_MC with FeatureNew / FeatureDeprecated '
+                'uses and range probes; non-trivial = distinct executed feature uses and clauses reported as always true / false.')
     # ---- 1. model checking
     alph = 'Small' if quick else 'Full'
     res = run_tlc(FAM, 'VersionOrder_MC', cfg_text=mc_cfg(ORDER_INV, f' MaxLen = 3\n Numbers <- Numbers{alph}\n Words <- Words{alph}\n', 'EmitDomain'),
@@ -608,6 +695,35 @@ def main(chk: Check) -> None:
                   collect=['ranges.json'], timeout=3000, allow_violation=False)
     chk.add_tlc(f'VersionRange_MC[{alph}]', res)
     rspace = json.loads(res.collected['ranges.json'])
+    # the entry points: constraint lists built step by step around the version of the meson under test
+    ml()
+    from mesonbuild import coredata
+    real, stable = coredata.version, coredata.stable_version
+    ernd = random.Random(chk.seed * 104729 + 1919)
+    alphabets: T.Dict[str, T.Dict[str, T.Any]] = {}
+    owns = [real] if quick else [real, stable, '1.0.0rc1', 'a.b']
+    for own in owns:
+        alph_e = entry.alphabet_around(own, ernd, 1 if quick else 2)
+        res = run_tlc(FAM, 'VersionEntry_MC', cfg_text=mc_cfg(ENTRY_INV, ' Alphabet <- AlphabetFromFile\n MaxList = 3\n', 'EmitAlphabet'),
+                      files={'entry_alphabet.json': json.dumps(entry.alphabet_json(alph_e))}, collect=['entry.json'],
+                      timeout=3000, allow_violation=False)
+        chk.add_tlc(f'VersionEntry_MC[own={own},MaxList=3]', res)
+        exported = json.loads(res.collected['entry.json'])
+        if sorted(txt(x) for x in exported['spellings']) != sorted(entry.SPELLINGS) or \
+                set(exported['entries']) - {'compiler'} != set(entry.INPROC):
+            raise MachineryError('the step alphabet exported by VersionEntry_MC is not the one the driver renders')
+        alphabets[own] = {'own': txt(exported['own']), **{k: [txt(x) for x in exported[k]] for k in ('below', 'same', 'above')}}
+    # the feature-check state machine over a space around the version of the meson under test
+    frnd = random.Random(chk.seed * 15485863 + 77)
+    fspace = feat.space_around(real, stable, frnd, 10 if quick else 16)
+    res = run_tlc(FAM, 'VersionFeature_MC',
+                  cfg_text=mc_cfg(FEATURE_INV, f' Space <- SpaceFromFile\n MaxDepth = {2 if quick else 3}\n MaxEvents = {3 if quick else 5}\n', 'EmitSpace'),
+                  files={'feature_space.json': json.dumps(feat.space_json(fspace))}, collect=['feature.json'],
+                  timeout=3000, allow_violation=False)
+    chk.add_tlc('VersionFeature_MC', res)
+    fexp = json.loads(res.collected['feature.json'])
+    fspace = {'own': txt(fexp['own']), 'projects': [txt(x) for x in fexp['projects']], 'groups': [[txt(x) for x in g] for g in fexp['groups']],
+              'features': [txt(x) for x in fexp['features']], 'probes': [txt(x) for x in fexp['probes']]}
     chk.extra['model_domain_versions'] = len(domain)
     chk.extra['model_range_descriptions'] = len(rspace['ranges'])
 
@@ -679,17 +795,46 @@ def main(chk: Check) -> None:
             _account(chk, done, bdom)
             judge(chk, done, bdom, f'B{bno}')
         # if-block narrowing of the target meson version, observed from inside the block
-        ml()
-        from mesonbuild import coredata
         idom, icases = gen_if_narrowing(rnd, 300 if quick else 3000, coredata.version, coredata.stable_version)
         done = run_cases(ex, icases, idom)
         chk.evaluations += len(done)
         _account(chk, done, idom)
         judge(chk, done, idom, 'B-if')
-    # the same method through the real command line
+        # ---- 4. the entry points (A: the model's step alphabet around each receiver; B: free-form)
+        ecases = entry.model_cases(ernd, real, stable, quick, alphabets)
+        done = run_cases(ex, ecases, [])
+        chk.evaluations += len(done)
+        _account(chk, done, [])
+        for part in range(0, len(done), 60000):       # TLC reads a batch as one JSON value: keep it moderate
+            judge(chk, done[part:part + 60000], [], f'A-entry{part // 60000}' if len(done) > 60000 else 'A-entry')
+        chk.extra['entry_cases_per_entry_point'] = {e: sum(1 for c in done if c.get('e') == e) for e in entry.INPROC}
+        # ---- 5. feature-check programs (A: the space of VersionFeature_MC; B: other running versions, free-form ends)
+        progs = feat.programs_from_space(fspace, frnd, 250 if quick else 3000, 2 if quick else 3)
+        fdom_all = list(fspace['probes'])
+        for own in entry.receivers('meson', frnd, 3 if quick else 8, real, stable)[1:]:
+            sp2 = feat.space_around(own, own, frnd, 10)
+            progs += feat.programs_from_space(sp2, frnd, 120 if quick else 1000, 3, systematic=not quick)
+            fdom_all += [x for x in sp2['probes'] if x not in fdom_all]
+        done = run_cases(ex, [feat.to_case(p) for p in progs], fdom_all)
+        chk.evaluations += sum(len(c['ev']) for c in done if 'ev' in c)
+        _account(chk, done, fdom_all)
+        judge(chk, done, fdom_all, 'AB-feature')
+        edom, _ = gen_random(random.Random(chk.seed * 31337 + 5), 1)
+        ecases = gen_random_entries(ernd, edom, 800 if quick else 12000, real, stable)
+        bdone = run_cases(ex, ecases, [])
+        chk.evaluations += len(bdone)
+        _account(chk, bdone, [])
+    # the same questions through the real command line (one TLC run judges the three batches)
     cdom, ccases = cli_sample(chk, rnd, 150 if quick else 600)
     chk.evaluations += len(ccases)
-    judge(chk, ccases, cdom, 'B-cli')
+    clicases = entry.cli_entries(ernd, 120 if quick else 600, real, stable)
+    chk.evaluations += len(clicases)
+    _account(chk, clicases, [])
+    chk.extra['entry_cases_cli'] = {e: sum(1 for c in clicases if c.get('e') == e) for e in sorted({c['e'] for c in clicases})}
+    fdom, fcli = feat.cli_programs(frnd, 40 if quick else 200, real, stable)
+    chk.evaluations += sum(len(c['ev']) for c in fcli)
+    _account(chk, fcli, fdom)
+    judge(chk, ccases + clicases + bdone + fcli, fdom, 'B-cli+entry+feature')     # only the feature programs refer to the domain
     chk.exhaustive = True
     chk.assumptions += [
         'version strings are ASCII; non-ASCII digits/letters (which Python regexes may classify differently) are not generated',
@@ -703,6 +848,18 @@ def main(chk: Check) -> None:
         'unittests/versiontests.py',
         'versions passed through generated meson code contain no quote, backslash or newline',
         'hash equality is required for equal versions only',
+        'entry points: receivers are restricted to what the carrier can transport unchanged (find_program / config-tool '
+        'versions are dotted numbers because only "numbers separated by dots" are kept; pkg-config versions have no blanks; '
+        'dependency / subproject versions are not empty and not "undefined"); for meson.version() and project(meson_version:) '
+        'the version of the running meson is substituted in-process (coredata.version / stable_version) besides the real one; '
+        'a repeated subproject() whose version does not match raises even with required: false - read as "does not hold"; '
+        'dependency factories that need a toolchain or an installed tool (cuda, llvm, qt, dub, cups) are not driven',
+        'feature checks: projects always give a meson_version (without one the checks follow a different, release-dependent '
+        'rule); conditions are plain meson.version().version_compare() calls, not negated and not combined with and / or '
+        '(the narrowing then no longer describes the block - not claimed by the statement); feature versions are dotted '
+        'numbers without leading zeros (trailing ".0" components do not count, as the code comments and the pinned tests say); '
+        'a condition list with "!=" may be left out of the narrowing; always-true/false reports and warnings are only required '
+        'to be justified (a silent implementation of the always report is accepted)',
     ]
 
 
@@ -715,11 +872,17 @@ def _account(chk: Check, cases: T.List[T.Dict[str, T.Any]], dom: T.List[str]) ->
             chk.nontriv(json.dumps({x: c[x] for x in INPUT_KEYS[k] if x in c}, sort_keys=True) + str(len(dom)))
         elif k == 'always' and c.get('got') in ('T', 'F'):
             chk.nontriv(json.dumps([c['a'], c['b'], c['got']], sort_keys=True) + str(len(dom)))
+        elif k == 'feat':
+            for e in c['ev']:
+                if e.get('ran') and (e['op'] == 'use' or e.get('ans') in ('T', 'F')):
+                    chk.nontriv(json.dumps([c['p'], e]))
+        elif k == 'entry' and len(c.get('cs', [])) > 1:
+            chk.nontriv(json.dumps([c['e'], c['v'], c['cs']]))
         elif k in ('tri', 'vc', 'vcm', 'meson', 'cms', 'cmr'):
             chk.nontriv(json.dumps({x: c[x] for x in INPUT_KEYS[k] if x in c}, sort_keys=True))
-        if taken < 2 and k in ('isect', 'checks', 'always', 'vcm', 'ifn', 'cmr') and chk.seed is not None:
+        if taken < 2 and k in ('isect', 'checks', 'always', 'vcm', 'ifn', 'cmr', 'entry') and chk.seed is not None:
             sig, info = describe(c, dom, {'clause': 'sample', 'witness': 0})
-            info['observed'] = {x: c[x] for x in ('m', 'got', 'ok', 'nf', 'f') if x in c}
+            info['observed'] = {x: c[x] for x in ('m', 'got', 'ok', 'nf', 'f', 'each') if x in c}
             if isinstance(info['observed'].get('m'), list):
                 info['observed']['members'] = [dom[j - 1] for j in info['observed'].pop('m')][:12]
             for fld in ('nf', 'f'):
